@@ -342,7 +342,10 @@ func readTask(fsys *squashfs.FileSystem, im *image, r *hx.Rng) (what string, bad
 			bad = fmt.Sprintf("panic: %v", p)
 		}
 	}()
-	mode := r.Intn(5)
+	mode := r.Intn(6)
+	if mode == 5 {
+		return sameFileTask(fsys, im, r)
+	}
 	if mode == 4 {
 		d := hx.Pick(r, im.dpath)
 		what = "readdir " + d
@@ -439,6 +442,69 @@ func readTask(fsys *squashfs.FileSystem, im *image, r *hx.Rng) (what string, bad
 	return what, ""
 }
 
+// sameFileTask: 2-3 handles of ONE goroutine on the same file (one of the multi-block files, which other
+// goroutines read at the same time too), sub-block reads alternating between the handles, each handle
+// with a cursor of its own: every handle must see the file's bytes at ITS cursor (a block buffer shared
+// between handles, or between a handle and a later read, shows here).
+func sameFileTask(fsys *squashfs.FileSystem, im *image, r *hx.Rng) (what string, bad string) {
+	p := im.paths[r.Intn(8)%len(im.paths)]
+	want := im.files[p]
+	nh := 2 + r.Intn(2)
+	what = fmt.Sprintf("samefile(%d handles) %s", nh, p)
+	atomic.AddInt64(&sameFileTasks, 1)
+	type hnd struct {
+		f interface {
+			io.ReadSeeker
+			io.Closer
+		}
+		off int
+	}
+	hs := make([]hnd, nh)
+	for i := range hs {
+		f, err := fsys.OpenFile(p, os.O_RDONLY)
+		if err != nil {
+			return what, fmt.Sprintf("OpenFile: %v", err)
+		}
+		defer f.Close()
+		hs[i].f = f
+		if i > 0 && len(want) > 0 {
+			hs[i].off = r.Intn(len(want))
+			if _, err := f.Seek(int64(hs[i].off), io.SeekStart); err != nil {
+				return what, fmt.Sprintf("Seek: %v", err)
+			}
+		}
+	}
+	chunk := hx.Pick(r, []int{1, 13, 100, 700, 1500, 4095})
+	buf := make([]byte, chunk)
+	for step := 0; step < 40; step++ {
+		h := &hs[step%nh]
+		if h.off >= len(want) {
+			h.off = r.Intn(len(want) + 1)
+			if _, err := h.f.Seek(int64(h.off), io.SeekStart); err != nil {
+				return what, fmt.Sprintf("Seek: %v", err)
+			}
+		}
+		n, err := h.f.Read(buf)
+		if err != nil && err != io.EOF {
+			return what, fmt.Sprintf("Read: %v at offset %d", err, h.off)
+		}
+		hi := h.off + chunk
+		if hi > len(want) {
+			hi = len(want)
+		}
+		if !bytes.Equal(buf[:n], want[h.off:hi]) {
+			return what, fmt.Sprintf("bytes differ from the source: handle %d of %d at offset %d got %d bytes, want %d", step%nh, nh, h.off, n, hi-h.off)
+		}
+		h.off += n
+		for i := range buf { // the caller's buffer is the caller's
+			buf[i] = 0x5A
+		}
+	}
+	return what, ""
+}
+
+var sameFileTasks int64
+
 // ---- one concurrent run ------------------------------------------------------------------------
 
 type runCfg struct {
@@ -451,7 +517,8 @@ type runCfg struct {
 	yieldPct int
 	tasks    int
 	seed     uint64
-	faultPct int // > 0: this share of the backend reads fails while the readers run
+	faultPct int  // > 0: this share of the backend reads fails while the readers run
+	storm    bool // the resizer does not pause: bursts of SetCacheSize(0) / SetCacheSize(big)
 }
 
 func (k runCfg) String() string {
@@ -460,10 +527,13 @@ func (k runCfg) String() string {
 	if k.faultPct > 0 {
 		s += fmt.Sprintf(" failing-reads=%d%%", k.faultPct)
 	}
+	if k.storm {
+		s += " resize-storm"
+	}
 	return s
 }
 
-var cacheBytes = map[string]int{"0": 0, "1": blockSize, "few": 3 * blockSize, "default": -12345}
+var cacheBytes = map[string]int{"0": 0, "1": blockSize, "2": 2 * blockSize, "few": 3 * blockSize, "default": -12345}
 
 type runResult struct {
 	bad      string // first oracle complaint
@@ -473,6 +543,7 @@ type runResult struct {
 	wall     time.Duration
 	injected int64 // backend reads failed on purpose
 	faulted  int64 // reader tasks that returned an error while reads were failing
+	rehashed int   // cached slices hashed again and found unchanged
 }
 
 func splitmix(x uint64) uint64 {
@@ -585,6 +656,14 @@ func runConcurrent(im *image, k runCfg, lockFree bool, deadline time.Duration) (
 					return
 				default:
 				}
+				if k.storm {
+					// a storm: the cache is emptied and reopened as fast as the lock allows
+					for j := 0; j < 50; j++ {
+						fsys.SetCacheSize([]int{0, 128 << 20, 0, blockSize, 0, 2 * blockSize}[j%6])
+					}
+					runtime.Gosched()
+					continue
+				}
 				fsys.SetCacheSize(hx.Pick(r, sizes))
 				if k.getSize {
 					_ = fsys.GetCacheSize()
@@ -597,6 +676,33 @@ func runConcurrent(im *image, k runCfg, lockFree bool, deadline time.Duration) (
 			}
 		}()
 	}
+	// cached data is immutable: a watcher hashes the cached slices while the readers run (immut.go)
+	watch := newImmWatch()
+	if l := fsys.CacheForVerif(); l != nil {
+		rwg.Add(1)
+		go func() {
+			defer rwg.Done()
+			for {
+				select {
+				case <-stop:
+					return
+				default:
+				}
+				t0 := time.Now()
+				if bad := watch.observe(l); bad != "" {
+					fail(bad)
+					return
+				}
+				// the watcher must not dominate the run: pause at least eight times as long as a look took
+				pause := 8 * time.Since(t0)
+				if pause < 2*time.Millisecond {
+					pause = 2 * time.Millisecond
+				}
+				time.Sleep(pause)
+			}
+		}()
+	}
+	defer func() { res.rehashed = watch.checks }()
 	if k.getSize {
 		// a reader of the cache size, as a monitoring goroutine of an application would be
 		rwg.Add(1)
@@ -638,6 +744,12 @@ func runConcurrent(im *image, k runCfg, lockFree bool, deadline time.Duration) (
 		if bad := cleanPass(fsys, im); bad != "" {
 			fail(fmt.Sprintf("after %d injected read failures had stopped, a sequential pass over the image: %s", atomic.LoadInt64(&injected), bad))
 		}
+	}
+	if bad := watch.observe(fsys.CacheForVerif()); bad != "" {
+		fail(bad)
+	}
+	if bad := watch.final(); bad != "" {
+		fail("at the end of the run: " + bad)
 	}
 	// quiescent: the real cache must be a well-formed list of at most max(1, maxBlocks) blocks
 	if l := fsys.CacheForVerif(); l != nil {
@@ -761,7 +873,7 @@ func concurrent(c *hx.Ctx, isRace bool) {
 	}
 	gs := []int{2, 3, 4, 8, 8, 16, 32}
 	ps := []int{1, 2, 4, 4, 8, 16}
-	caches := []string{"0", "1", "few", "default"}
+	caches := []string{"0", "1", "2", "few", "default"}
 	var n int
 	switch {
 	case isRace && c.Args["scenario"] == "getsize":
@@ -791,6 +903,7 @@ func concurrent(c *hx.Ctx, isRace bool) {
 			tasks:    c.N(14, 24),
 			seed:     r.U64(),
 		}
+		k.storm = k.resize && r.Chance(25)
 		if i < 8 { // the boundary grid first: few/many goroutines x one/many processors
 			k.g = []int{2, 32, 2, 32, 8, 8, 16, 3}[i]
 			k.procs = []int{1, 1, 16, 16, 4, 2, 8, 1}[i]
@@ -820,6 +933,10 @@ func concurrent(c *hx.Ctx, isRace bool) {
 		if k.resize {
 			c.Stat(prefix + ".with_concurrent_SetCacheSize")
 		}
+		if k.storm {
+			c.Stat(prefix + ".with_resize_storm")
+		}
+		c.StatN(prefix+".cached_blocks_rehashed_unchanged", res.rehashed)
 		if k.faultPct > 0 {
 			c.Stat(prefix + ".with_transient_read_failures")
 			c.StatN(prefix+".injected_read_failures", int(res.injected))
@@ -835,6 +952,9 @@ func concurrent(c *hx.Ctx, isRace bool) {
 			c.Fail(id, "-", res.bad, prefix+" "+k.String())
 		} else {
 			c.OK(id)
+		}
+		if i == n-1 {
+			c.StatN(prefix+".same_file_multi_handle_tasks", int(atomic.LoadInt64(&sameFileTasks)))
 		}
 		if res.deadline {
 			c.Note("C17: a run missed its deadline; its goroutines are stuck, no further concurrent runs in this process")
